@@ -143,8 +143,8 @@ func zzArbitrary(gp *GenginePool) (all, held []*gengineWrapper) {
 func genC17(tier string, seed int64) (*Family, error) {
 	fam := &Family{
 		Prop: "C17", Files: map[string]string{},
-		Bounds: map[string]interface{}{"pool_sizes": "(min,max) in {(1,2),(1,3),(2,3)} (thorough adds (2,4),(3,4))", "pre_state": "arbitrary distribution of the instances over {own list, held by a request}, lists rotated arbitrarily", "request_outcomes": "normal, rule error (symbolic flag), panic out of the pool method"},
-		Cfg:    interp.Config{MaxSteps: 3_000_000, TrackFields: []string{"engine.GenginePool.freeGengines", "engine.GenginePool.additionGengines"}},
+		Bounds:    map[string]interface{}{"pool_sizes": "(min,max) in {(1,2),(1,3),(2,3)} (thorough adds (2,4),(3,4))", "pre_state": "arbitrary distribution of the instances over {own list, held by a request}, lists rotated arbitrarily", "request_outcomes": "normal, rule error (symbolic flag), panic out of the pool method"},
+		Cfg:       interp.Config{MaxSteps: 3_000_000, TrackFields: []string{"engine.GenginePool.freeGengines", "engine.GenginePool.additionGengines"}},
 		Functions: []string{"engine.GenginePool).getGengine", "engine.GenginePool).putGengineLocked", "engine.GenginePool).prepareWithMultiInput", "engine.GenginePool).prepare"},
 	}
 	fam.Assumptions = []string{
@@ -297,8 +297,8 @@ func C_two_in_flight() {
 func genC06(tier string, seed int64) (*Family, error) {
 	fam := &Family{
 		Prop: "C06", Files: map[string]string{},
-		Bounds: map[string]interface{}{"pool": "(1,2) and (2,3)", "requests": "<= 3 per scenario, <= 2 keys each, symbolic values", "overlap": "a second request runs while the first is blocked inside a rule"},
-		Cfg: interp.Config{MaxSteps: 6_000_000, TrackFields: []string{"engine.Gengine.returnResult", "context.DataContext.base"}, TrackAllocs: []string{"eMsg"}},
+		Bounds:    map[string]interface{}{"pool": "(1,2) and (2,3)", "requests": "<= 3 per scenario, <= 2 keys each, symbolic values", "overlap": "a second request runs while the first is blocked inside a rule"},
+		Cfg:       interp.Config{MaxSteps: 6_000_000, TrackFields: []string{"engine.Gengine.returnResult", "context.DataContext.base"}, TrackAllocs: []string{"eMsg"}},
 		Functions: []string{"engine.GenginePool).prepareWithMultiInput", "engine.GenginePool).prepare", "engine.gengineWrapper).clearInjected", "engine.GenginePool).getGengine", "engine.GenginePool).putGengineLocked", "DataContext).Del"},
 	}
 	fam.Assumptions = []string{
